@@ -361,3 +361,21 @@ func MakeJoinGame(pv proto.Protocol, entityID int) *packet.JoinGame {
 	}
 	return j
 }
+
+// AwaitCurrentServer waits until the proxy's API reports the named player as connected to
+// the named server (the switch is complete only then: JoinGame reaches the client slightly
+// before the proxy records the new current server).
+func (h *Harness) AwaitCurrentServer(player, server string, d time.Duration) bool {
+	deadline := time.Now().Add(d)
+	for {
+		if p := h.P.PlayerByName(player); p != nil {
+			if cs := p.CurrentServer(); cs != nil && cs.Server().ServerInfo().Name() == server {
+				return true
+			}
+		}
+		if !time.Now().Before(deadline) {
+			return false
+		}
+		time.Sleep(200 * time.Microsecond)
+	}
+}
